@@ -3,6 +3,7 @@
 CONSTANTS
   MaxConj = 3
   MaxAlt = 2
+  MaxAtoms = 6
   MaxArch = 2
   MaxGroups = 2
   MaxTerms = 2
